@@ -206,3 +206,79 @@ Qed.
 
 Example zero_column_premises : zeroV (V (f64_of_bits 0) (f64_of_bits 0) (f64_of_bits 0)) /\ finV (c0 identF) /\ finV (c1 identF).
 Proof. repeat split. Qed.
+
+(* ---- the finiteness premises hold on the domain of the property: entries within [-4, 4] ---- *)
+Definition le4 (x : f64) : Prop := is_finite x = true /\ Rabs (B2R x) <= 4.
+Lemma mul_bounded (p q : f64) (P Q : R) (k : Z) : (-1074 <= k)%Z -> (k + 2 < 1024)%Z ->
+  is_finite p = true -> is_finite q = true -> Rabs (B2R p) <= P -> Rabs (B2R q) <= Q -> P * Q <= bpow radix2 k ->
+  is_finite (mul64 p q) = true /\ Rabs (B2R (mul64 p q)) <= bpow radix2 k.
+Proof.
+  intros K1 K2 Fp Fq Hp Hq Hk.
+  assert (HK : (SpecFloat.emin 53 1024 <= k)%Z /\ (k + 2 < 1024)%Z) by (unfold SpecFloat.emin; lia).
+  assert (Hb : Rabs (B2R p * B2R q) <= bpow radix2 k).
+  { rewrite Rabs_mult. eapply Rle_trans; [ | exact Hk ].
+    apply Rmult_le_compat; try apply Rabs_pos; assumption. }
+  destruct (mult_ok 53 1024 P53 PE1024 k HK p q Fp Fq Hb) as (F & E & B). unfold mul64. rewrite E. auto.
+Qed.
+Lemma sub_bounded (p q : f64) (P Q : R) (k : Z) : (-1074 <= k)%Z -> (k < 1024)%Z ->
+  is_finite p = true -> is_finite q = true -> Rabs (B2R p) <= P -> Rabs (B2R q) <= Q -> P + Q <= bpow radix2 k ->
+  is_finite (sub64 p q) = true /\ Rabs (B2R (sub64 p q)) <= bpow radix2 k.
+Proof.
+  intros K1 K2 Fp Fq Hp Hq Hk.
+  assert (Hb : Rabs (B2R p - B2R q) <= bpow radix2 k).
+  { eapply Rle_trans; [ apply Rabs_triang | ]. rewrite Rabs_Ropp. lra. }
+  pose proof (rnd_abs_le 53 1024 P53 _ k ltac:(unfold SpecFloat.emin; lia) K2 Hb) as Hr.
+  unfold sub64. generalize (Bminus_correct 53 1024 P53 PE1024 mode_NE p q Fp Fq). simpl round_mode.
+  rewrite Rlt_bool_true by (eapply Rle_lt_trans; [ exact Hr | apply bpow_lt; lia ]).
+  intros (H1 & H2 & _). rewrite H1. auto.
+Qed.
+Lemma mul44 (p q : f64) : le4 p -> le4 q -> is_finite (mul64 p q) = true /\ Rabs (B2R (mul64 p q)) <= 16.
+Proof.
+  intros (Fp & Hp) (Fq & Hq). replace 16 with (bpow radix2 4) by (simpl; lra).
+  apply (mul_bounded p q 4 4 4); try lia; try assumption. simpl; lra.
+Qed.
+Lemma minor44 (p q r s : f64) : le4 p -> le4 q -> le4 r -> le4 s ->
+  is_finite (sub64 (mul64 p q) (mul64 r s)) = true /\ Rabs (B2R (sub64 (mul64 p q) (mul64 r s))) <= 32.
+Proof.
+  intros Hp Hq Hr Hs. destruct (mul44 p q Hp Hq) as (F1 & B1). destruct (mul44 r s Hr Hs) as (F2 & B2).
+  replace 32 with (bpow radix2 5) by (simpl; lra).
+  apply (sub_bounded _ _ 16 16 5); try lia; try assumption. simpl; lra.
+Qed.
+Lemma cof44 (a p q r s : f64) : le4 a -> le4 p -> le4 q -> le4 r -> le4 s ->
+  is_finite (mul64 a (sub64 (mul64 p q) (mul64 r s))) = true.
+Proof.
+  intros (Fa & Ha) Hp Hq Hr Hs. destruct (minor44 p q r s Hp Hq Hr Hs) as (F & B).
+  apply (mul_bounded a _ 4 32 7); try lia; try assumption. simpl; lra.
+Qed.
+Definition vle4 (v : vecF) : Prop := le4 (v0 v) /\ le4 (v1 v) /\ le4 (v2 v).
+
+(* every matrix with entries of magnitude at most 4 (the property's domain) and two equal columns: the float64
+   determinant is a zero and Inverse takes its documented panic - no further premise *)
+Theorem singular_repeated_column_float (a b : vecF) : vle4 a -> vle4 b ->
+  inverseF (M a a b) = None /\ inverseF (M a b a) = None /\ inverseF (M b a a) = None.
+Proof.
+  intros (A0 & A1 & A2) (B0 & B1 & B2).
+  pose proof (proj1 A0) as FA0. pose proof (proj1 B0) as FB0.
+  split; [ | split ].
+  - apply det_repeated_first_float; try assumption.
+    + apply minor44; assumption. + apply cof44; assumption. + apply mul44; assumption.
+  - apply det_repeated_outer_float; try assumption.
+    + apply mul44; assumption. + apply mul44; assumption. + apply minor44; assumption.
+    + apply cof44; assumption. + apply mul44; assumption.
+  - apply det_repeated_last_float; try assumption.
+    + apply minor44; assumption. + apply cof44; assumption. + apply mul44; assumption.
+Qed.
+Theorem singular_zero_column_float (z a b : vecF) : zeroV z -> vle4 a -> vle4 b ->
+  inverseF (M z a b) = None /\ inverseF (M a z b) = None /\ inverseF (M a b z) = None.
+Proof.
+  intros Hz (A0 & A1 & A2) (B0 & B1 & B2).
+  assert (Fa : finV a) by (repeat split; [ apply A0 | apply A1 | apply A2 ]).
+  assert (Fb : finV b) by (repeat split; [ apply B0 | apply B1 | apply B2 ]).
+  destruct (det_zero_column_float z a b Hz Fa Fb (proj1 (minor44 _ _ _ _ A1 B2 B1 A2))) as ((_ & H1) & (_ & H2) & (_ & H3)).
+  auto.
+Qed.
+Example vle4_ident : vle4 (c0 identF) /\ vle4 (c1 identF).
+Proof.
+  assert (H1 : B2R one64 = 1) by (vm_compute; lra). assert (H0 : B2R (f64_of_bits 0) = 0) by reflexivity.
+  unfold vle4, le4; cbn [identF c0 c1 v0 v1 v2]; rewrite ?H1, ?H0, ?Rabs_R0, ?Rabs_R1; repeat split; lra.
+Qed.
